@@ -38,18 +38,18 @@ const (
 // was transcribed into tableDefs below.  A difference (or a file that is not
 // listed) is reported as a schema-changed TieIssue.
 var schemaFileHashes = map[string]string{
-	"keyper/database/sql/schemas/keyper.sql":                                             "168eb8f5fae7c0a4",
-	"keyper/database/sql/migrations/V2_updatable_encryption_keys.sql":                    "2c23a3b526b5c48b",
-	"keyperimpl/shutterservice/database/sql/schemas/shutterservice.sql":                  "c99bb5e6a4a5015f",
-	"keyperimpl/shutterservice/database/sql/migrations/V2_event_based_triggers.sql":      "aa7d2a0ba385aa11",
+	"keyper/database/sql/schemas/keyper.sql":                                              "168eb8f5fae7c0a4",
+	"keyper/database/sql/migrations/V2_updatable_encryption_keys.sql":                     "2c23a3b526b5c48b",
+	"keyperimpl/shutterservice/database/sql/schemas/shutterservice.sql":                   "c99bb5e6a4a5015f",
+	"keyperimpl/shutterservice/database/sql/migrations/V2_event_based_triggers.sql":       "aa7d2a0ba385aa11",
 	"keyperimpl/shutterservice/database/sql/migrations/V3_event_trigger_identity_key.sql": "03878472ae4e7a9b",
-	"keyperimpl/gnosis/database/sql/schemas/gnosiskeyper.sql":                            "18ad98991fd55a58",
-	"keyperimpl/gnosis/database/sql/migrations/V2_validatorRegistrations.sql":            "016f3954a478f191",
-	"keyperimpl/primev/database/sql/schemas/primev.sql":                                  "eabed6097a4615e3",
-	"chainobserver/db/keyper/sql/schemas/keyper.sql":                                     "e036d312bb0026b6",
-	"chainobserver/db/sync/sql/schemas/sync.sql":                                         "eaf7e294b9385cdc",
-	"chainobserver/db/collator/sql/schemas/collator.sql":                                 "ee600afa6b54568f",
-	"medley/db/sql/schemas/meta.sql":                                                     "bbc4e117ec61ae89",
+	"keyperimpl/gnosis/database/sql/schemas/gnosiskeyper.sql":                             "18ad98991fd55a58",
+	"keyperimpl/gnosis/database/sql/migrations/V2_validatorRegistrations.sql":             "016f3954a478f191",
+	"keyperimpl/primev/database/sql/schemas/primev.sql":                                   "eabed6097a4615e3",
+	"chainobserver/db/keyper/sql/schemas/keyper.sql":                                      "e036d312bb0026b6",
+	"chainobserver/db/sync/sql/schemas/sync.sql":                                          "eaf7e294b9385cdc",
+	"chainobserver/db/collator/sql/schemas/collator.sql":                                  "ee600afa6b54568f",
+	"medley/db/sql/schemas/meta.sql":                                                      "bbc4e117ec61ae89",
 }
 
 type colOpt func(*Column)
